@@ -480,14 +480,29 @@ func genKeys(seed int64, tier string) {
 				}
 			}
 			prop("bucket_members", strings.Join(gotMid, ",") == strings.Join(wantMid, ","), "-", k.mode, fmt.Sprintf("%x", k.id), strings.Join(enc, ","))
-			// ends: first = decoded region start, last = decoded region end. The class where the region end is a short
-			// string between the last key of the keyspace and endKey is modelled as the code is (C15_bucket_last_refuted)
-			// and only compared differentially.
-			shortEnd := len(kn) > 0 && !bytes.HasPrefix(kn, k.pfx) && bytes.Compare(kn, k.pfx) > 0 && bytes.Compare(kn, k.end) < 0
-			if !shortEnd && len(out) > 0 {
+			// ends: first = decoded region start, last = decoded region end (incl. a short region end above the
+			// keyspace and below endKey: the unbounded end since bbcfa45)
+			if len(out) > 0 {
 				ends := "ok " + hx(out[0]) + " " + hx(out[len(out)-1])
 				prop("bucket_ends", ends == want, "-", k.mode, fmt.Sprintf("%x", k.id), strings.Join(enc, ","), "got="+ends, "want="+want)
 			}
+		}
+		// directed regression (F34): buckets [..a, ..m, <every proper prefix of endKey above the prefix>]
+		for n := 1; n < 4; n++ {
+			kn := k.end[:n]
+			if bytes.Compare(kn, k.pfx) <= 0 {
+				continue
+			}
+			bl := [][]byte{cat(k.pfx, "a"), cat(k.pfx, "m"), kn}
+			var enc []string
+			var encb [][]byte
+			for _, bb := range bl {
+				enc = append(enc, hx(memEnc(bb)))
+				encb = append(encb, memEnc(bb))
+			}
+			emit("dbk", k, strings.Join(enc, ","))
+			o, err := k.c.DecodeBucketKeys(encb)
+			prop("bucket_short_end", err == nil && hxList(o) == "61,6d,-", "short_region_end", k.mode, fmt.Sprintf("%x", k.id), strings.Join(enc, ","), "got="+hxList(o), "want=61,6d,-")
 		}
 		// isolation against the other codecs: foreign keys are rejected and lie in no range of k
 		for j := 0; j < 6; j++ {
@@ -518,12 +533,40 @@ func replayKeys(args []string) {
 	}
 	k := getCodec(args[1], uint32(id))
 	emit(args[0], k, args[3:]...)
+	if args[0] == "dbk" {
+		replayBuckets(k, args[3])
+	}
 	if args[0] == "dr" {
 		s, e := unhx(args[3]), unhx(args[4])
 		got := runKeyOp("dr", k, args[3:])
 		want := clipSpec(k, s, e)
 		prop("region_clip", got == want, clipClass(k, s), k.mode, fmt.Sprintf("%x", k.id), hx(s), hx(e), "got="+got, "want="+want)
 	}
+}
+
+// bucket list replay: the ends of the decoded list against the region-clipping specification
+func replayBuckets(k *kcodec, list string) {
+	var encb, raw [][]byte
+	for _, h := range strings.Split(list, ",") {
+		e := unhx(h)
+		encb = append(encb, e)
+		var r []byte
+		if len(e) > 0 {
+			_, d, err := codec.DecodeBytes(cp(e), nil)
+			if err != nil {
+				return
+			}
+			r = d
+		}
+		raw = append(raw, r)
+	}
+	o, err := k.c.DecodeBucketKeys(encb)
+	want := clipSpec(k, raw[0], raw[len(raw)-1])
+	if err != nil || want == "oob" || len(o) == 0 {
+		return
+	}
+	ends := "ok " + hx(o[0]) + " " + hx(o[len(o)-1])
+	prop("bucket_ends", ends == want, "-", k.mode, fmt.Sprintf("%x", k.id), list, "got="+ends, "want="+want)
 }
 
 func initOut() { out = bufio.NewWriterSize(os.Stdout, 1<<20) }
